@@ -24,7 +24,7 @@ def mask(text):
 
 
 def mask_code_repr(text):
-    return re.sub(r"<(?:Code\w+ )?code object (\S+) at 0x\?, file \"?([^\">]+)\"?(?:, line (\d+)>|>, line (\d+))", r"<code \1 \2 \3\4>", text)
+    return re.sub(r"<(?:Code\w+ )?code object (.+?) at 0x\?, file \"?([^\">]+)\"?(?:, line (\d+)>|>, line (\d+))", r"<code \1 \2 \3\4>", text)
 
 
 def mask_set_order(text):
@@ -46,7 +46,7 @@ def run(tier, rep):
             # small files: every (host, path) run repeats four recorders on each of them
             fl_ = sorted((f for f in samples[v] if "huge" not in f and "sx_jumps" not in f), key=os.path.getsize)
             # closures over parameters / positional-only args / super(), constants of every kind, exception tables, async code
-            want = ("gen_s38_new", "gen_sx_consts", "gen_s311_exc", "gen_s36_async", "gen_s2_consts", "gen_s3_consts", "gen_sx_longcall")
+            want = ("gen_s38_new", "gen_sx_consts", "gen_s311_exc", "gen_s36_async", "gen_s2_consts", "gen_s3_consts", "gen_sx_longcall", "gen_s312_typeparams")
             gens = [f for f in fl_ if os.path.basename(f).split(".")[0] in want]
             libs = [f for f in fl_ if "lib_" in os.path.basename(f)]
             off = lib.seed() % max(1, len(libs))
